@@ -32,7 +32,7 @@ func hasTail(p *rm.Parsed) bool {
 }
 
 func replayC14(rc routingCase, o rs.Outcome) error {
-	b := rs.Build(rc.Table, rs.BuildOpt{Router: routerOf(rc.Router), Options: rc.Options})
+	b := rs.Build(rc.Table, rs.BuildOpt{Router: routerOf(rc.Router), Options: rc.Options, Switched: rc.Switched})
 	twin := rc.Req
 	twin.Slash = true
 	o2 := b.Do(twin.HTTP(), h.NewRec(), false)
@@ -58,7 +58,9 @@ func checkC14(run *h.Run) {
 			if sp.Name == "H1" || sp.Name == "H2" {
 				continue
 			}
-			opt := rs.BuildOpt{Router: router, Options: sp.Name == "O1" || sp.Name == "O2"}
+			// the single-route sweep runs on containers whose router was switched first (what the other
+			// router leaves behind in the container must not matter)
+			opt := rs.BuildOpt{Router: router, Options: sp.Name == "O1" || sp.Name == "O2", Switched: sp.Name == "P1"}
 			// keep only p (no trailing slash, last segment non-empty, some non-empty segment) and build its twin p/
 			var ps, twins []h.Req
 			for _, r := range sp.Reqs {
@@ -97,7 +99,7 @@ func checkC14(run *h.Run) {
 						nontriv++
 					}
 					if k1 != k2 || k1 != o1b.Key() {
-						rc := routingCase{Sweep: sp.Name, Router: router.String(), Table: t, Req: w.reqs[qi], Observed: o1, Other: o2, Options: opt.Options}
+						rc := routingCase{Sweep: sp.Name, Router: router.String(), Table: t, Req: w.reqs[qi], Observed: o1, Other: o2, Options: opt.Options, Switched: opt.Switched}
 						qi := qi
 						run.Violate("trailing-slash/"+router.String(), "", fmt.Sprintf("[%s] %v ; %v -> %s but with trailing slash -> %s (again without: %s)", router, t, w.reqs[qi], k1, k2, o1b.Key()), rc, func() bool {
 							b2 := rs.Build(t, opt)
